@@ -46,12 +46,13 @@ func (s *c17Stream) Context() context.Context                 { return context.B
 //verif:harness prop=C17 tier=quick,thorough reach=completed paths=400000
 // Part transfer is exact: a sender that follows the protocol (chunks 0..N-1 in order, the same
 // chunk again after a checksum-mismatch answer, completion at the end) against the real
-// receiver - with chunk reordering enabled (the default) or not - ends in one of two ways only:
+// receiver - with chunk reordering enabled (the default) or not, over a transport that may
+// duplicate a chunk and (reordering) let a chunk overtake its predecessor - ends in one of two ways only:
 // the transfer is reported successful and the receiver applied exactly the bytes of chunks
 // 0..N-1, each once, in order, and installed the part once; or the transfer is not reported
 // successful. A chunk corrupted in transit (checksum mismatch) never leaves a hole that the
 // receiver papers over.
-// bound: one part, N = 2..3 chunks of 2 bytes, each transmission corrupted in transit or not (at most 2 corruptions per chunk, then the retry goes through), reordering enabled or not
+// bound: one part, N = 2..3 chunks of 2 bytes; each transmission corrupted in transit or not (at most 1 corruption per chunk, thorough 2, then the retry goes through); an acknowledged chunk delivered a second time or not; with reordering enabled a chunk may be overtaken by its successor; reordering enabled or not
 func VerifH_C17_ChunkProtocolDeliversThePartExactly() {
 	sink := &c17PartSink{}
 	topicName := data.TopicMeasurePartSync.String()
@@ -59,22 +60,40 @@ func VerifH_C17_ChunkProtocolDeliversThePartExactly() {
 		log:                   logger.GetLogger("c17"),
 		chunkedSyncHandlers:   map[bus.Topic]queue.ChunkedSyncHandler{data.TopicMeasurePartSync: sink},
 		enableChunkReordering: zzverif.Bool("reordering enabled"),
-		maxChunkBufferSize:    10, maxChunkGapSize: 5, chunkBufferTimeout: 1 << 40,
+		maxChunkBufferSize:    10, maxChunkGapSize: 5, chunkBufferTimeout: 1<<63 - 1, // the sender is never slow enough for the buffer timeout
 	}
 	stream := &c17Stream{}
 	n := 2 + zzverif.Choice("chunks", 2)
+	maxCorrupt := 1
+	if zzverif.Thorough() {
+		maxCorrupt = 2
+	}
 	var session *syncSession
 	var want []byte
+	var pending []int
 	for i := 0; i < n; i++ {
+		pending = append(pending, i)
+		want = append(want, byte(0x10+i), byte(0x20+i))
+	}
+	for len(pending) > 0 {
+		// the transport delivers the oldest undelivered chunk, or (reordering) lets the next one overtake it
+		k := 0
+		if s.enableChunkReordering && len(pending) > 1 && zzverif.Bool("overtaken by the next chunk") {
+			k = 1
+		}
+		i := pending[k]
+		pending = append(pending[:k:k], pending[k+1:]...)
 		payload := []byte{byte(0x10 + i), byte(0x20 + i)}
-		want = append(want, payload...)
 		good := fmt.Sprintf("%x", crc32.ChecksumIEEE(payload))
-		for tries := 0; ; tries++ {
-			req := &clusterv1.SyncPartRequest{
-				SessionId: "s", ChunkIndex: uint32(i), ChunkData: payload, ChunkChecksum: good,
+		mk := func(checksum string) *clusterv1.SyncPartRequest {
+			return &clusterv1.SyncPartRequest{
+				SessionId: "s", ChunkIndex: uint32(i), ChunkData: payload, ChunkChecksum: checksum,
 				PartsInfo: []*clusterv1.PartInfo{{Id: 7, PartType: "core", Files: []*clusterv1.FileInfo{{Name: "f", Offset: 0, Size: 2}}}},
 			}
-			if tries < 2 && zzverif.Bool("corrupted in transit") {
+		}
+		for tries := 0; ; tries++ {
+			req := mk(good)
+			if tries < maxCorrupt && zzverif.Bool("corrupted in transit") {
 				req.ChunkChecksum = "not-the-checksum"
 			}
 			if session == nil {
@@ -93,6 +112,13 @@ func VerifH_C17_ChunkProtocolDeliversThePartExactly() {
 			if st != clusterv1.SyncStatus_SYNC_STATUS_CHUNK_CHECKSUM_MISMATCH {
 				zzverif.Reach("aborted")
 				return // the sender gives up on any other answer
+			}
+		}
+		// an acknowledged chunk may be delivered once more (a retransmission whose answer is dropped)
+		if zzverif.Bool("delivered twice") {
+			if err := s.processChunk(stream, session, mk(good)); err != nil {
+				zzverif.Reach("aborted")
+				return
 			}
 		}
 	}
